@@ -1028,3 +1028,18 @@ for _p in ('C08', 'C14'):
     PLAN[_p]['rule'] += (' Stage light_restrict: spec/LightClient.tla with the action RestrictProof - the client cuts its cached proof down to some '
                          'of its leaves in any request order (GetProofSubset keeps the order of the request, which is part of the state until the next '
                          'block or undo) - followed by further blocks and by Undo.')
+
+
+# --------------------------------------------------------------------------- leaf hashes with almost all bytes zero
+# Leaf hashes are the caller's values.  The symbolic hashing option sparse=1 gives every leaf a value that is zero except
+# for one byte among bytes 16..23 (what an emptiness test, a prefix or a suffix comparison could get wrong); the pointer
+# forest keys its index by the first 12 bytes and does not take part.
+def sparse_hashes(tier):
+    q = tier == 'quick'
+    return core('core_prove_sparsehash', ['mod', 'prove'], 5 if q else 6, 2, x='sparse=1')
+
+
+for _p in ('C01', 'C02'):
+    PLAN[_p]['stages'] = (lambda f: (lambda tier, seed: f(tier, seed) + [sparse_hashes(tier)]))(PLAN[_p]['stages'])
+    PLAN[_p]['rule'] += (' Stage core_prove_sparsehash: blocks and proofs with leaf values that are zero except for one byte among bytes 16..23 '
+                         '(symbolic hashing option sparse=1; Stump and map forests).')
